@@ -3,6 +3,9 @@
 C15.entry    RIP := e_entry on every successful load
 C15.load     PT_LOAD: area at p_vaddr; equal-size variant holds segment_data(segment); otherwise a zero area of the
              page-rounded p_memsz receives segment_data(segment)[..p_filesz] at p_vaddr
+C15.round    the zero area's length L(p_memsz) satisfies p_memsz <= L <= next page boundary, for every residue of p_memsz
+             modulo the page size and representative page counts admitted by the path's own guards (a longer area
+             reaches into the page of the next segment, a shorter one loses the bss tail)
 C15.perm     mem_prot(p_vaddr, mask) with mask = R/W/X permutation of the segment's p_flags (per flag class)
 C15.symbols  symbol_table[st_value] = strtab.get(st_name); undefined symbols are skipped
 Declined: byte-for-byte equality of the image for all files; the p_vaddr == 0 skip; the rounding special case.
@@ -19,6 +22,48 @@ PT_LOAD = 1
 def seg_field(t, name):
     t = U.strip(t)
     return t == ("field", EM.SEG, name)
+
+
+PAGE = 0x1000
+_ROUND_CACHE = {}
+
+
+def rounding(I, o, L):
+    """evaluate the length term for every residue of p_memsz mod PAGE (page count 1) and for the boundary residues at
+    page counts {0, 2, 0x3ffff, 0x40000}; values the path's own guards exclude are skipped"""
+    leaf = ("field", EM.SEG, "p_memsz")
+    guards = tuple(c for c in o.path.conds if leaf in H.leaves(c[0]) or U.strip(c[0]) == leaf)
+    key = (L, guards)
+    if key in _ROUND_CACHE:
+        return _ROUND_CACHE[key][0], 0
+    vals = [PAGE + r for r in range(PAGE)]
+    for k in (0, 2, 0x3FFFF, 0x40000):
+        vals += [k * PAGE + r for r in (0, 1, 0x800, 0xFFF)]
+    bad = None
+    n = 0
+    for v in vals:
+        P = A.Path()
+        P.facts[leaf] = ("eq", v)
+        P.facts[A.W(leaf, 64)] = ("eq", v)
+        skip = False
+        for c in guards:
+            g = I.decide(P, c[0])
+            if g is None:
+                continue
+            if (c[1] == "==" and g != c[2]) or (c[1] == "!=" and g in c[2]):
+                skip = True
+                break
+        if skip:
+            continue
+        got = I.decide(P, L)
+        if got is None:
+            continue
+        n += 1
+        want = (v + PAGE - 1) // PAGE * PAGE
+        if not (v <= got <= want):
+            bad = bad or "p_memsz=%#x gives an area of %#x bytes, expected within [%#x, %#x]" % (v, got, v, want)
+    _ROUND_CACHE[key] = (bad, n)
+    return bad, n
 
 
 def run(ctx):
@@ -43,8 +88,8 @@ def run(ctx):
     else:
         ck.ok("C15.entry", "api=from_binary")
     # ---- PT_LOAD paths: any path (also widened iterations) where p_type == PT_LOAD was assumed
-    lbad = pbad = None
-    n_eq = n_zero = n_perm = 0
+    lbad = pbad = rbad = None
+    n_eq = n_zero = n_perm = n_round = 0
     for o in outs:
         if o.kind != "return":
             continue
@@ -52,54 +97,92 @@ def run(ctx):
         if not is_load:
             # no area may be created for non-LOAD segments
             continue
-        evs = o.path.events
-        creates = [e for e in evs if e[0] in ("init_area", "init_zero")]
-        writes = [e for e in evs if e[0] == "write_bytes"]
-        prots = [e for e in evs if e[0] == "prot"]
-        for e in creates:
-            if not seg_field(e[1], "p_vaddr"):
-                lbad = lbad or "area created at %s, expected p_vaddr" % A.show(e[1])
-            if e[0] == "init_area":
-                n_eq += 1
-                d = e[2]
-                if not (d[0] == "to_vec" and strip_d(d[1]) == ("segdata", EM.SEG)):
-                    lbad = lbad or "equal-size variant holds %s, expected segment_data(segment)" % A.show(d)[:60]
+        chunks = [[]]
+        for e in o.path.events:
+            if e[0] == "next" and e[1] == "seg":
+                chunks.append([])  # one chunk per program header visited on this path
             else:
-                n_zero += 1
-                lv = H.leaves(e[2])
-                names = {x[2] for x in lv if x[0] == "field" and x[1] == EM.SEG}
-                if names != {"p_memsz"}:
-                    lbad = lbad or "zero area sized from %s, expected p_memsz" % sorted(names)
-        for e in writes:
-            if not seg_field(e[1], "p_vaddr"):
-                lbad = lbad or "file bytes written at %s, expected p_vaddr" % A.show(e[1])
-            d = strip_d(e[2])
-            okd = d[0] == "ret" and "::index" in d[1] and strip_d(d[2][0]) == ("segdata", EM.SEG) and \
-                d[2][1][0] == "agg" and d[2][1][1].endswith("RangeTo") and seg_field(strip_all(d[2][1][3][0]), "p_filesz")
-            if not okd:
-                lbad = lbad or "file bytes are %s, expected segment_data(segment)[..p_filesz]" % A.show(d)[:80]
-        if [e for e in creates if e[0] == "init_zero"] and not is_err(o) and not writes and prots:
-            lbad = lbad or "zero variant never copies the file bytes"
-        # permissions (only on paths that got as far as mem_prot)
-        for e in prots:
-            n_perm += 1
-            if not seg_field(e[1], "p_vaddr"):
-                pbad = pbad or "mem_prot on %s, expected p_vaddr" % A.show(e[1])
-            m = I.decide(o.path, e[2])
-            fl = ("field", EM.SEG, "p_flags")
-            bits = [o.path.bitfacts.get((fl, i)) for i in range(3)]
-            if m is None or any(b is None for b in bits):
-                pbad = pbad or "permission mask %s not decided by the p_flags tests" % A.show(e[2])
-            else:
-                want = (bits[2] << 0) | (bits[1] << 1) | (bits[0] << 2)
-                if m != want:
-                    pbad = pbad or "p_flags X/W/R=%d%d%d -> mask %d, expected %d" % (bits[0], bits[1], bits[2], m, want)
-        if creates and not is_err(o) and not prots:
-            pbad = pbad or "a loaded segment never gets its permissions"
+                chunks[-1].append(e)
+        for evs in chunks:
+            failed = is_err(o) and evs is chunks[-1]
+            creates = [e for e in evs if e[0] in ("init_area", "init_zero")]
+            writes = [e for e in evs if e[0] == "write_bytes"]
+            prots = [e for e in evs if e[0] == "prot"]
+            for e in creates:
+                if not seg_field(e[1], "p_vaddr"):
+                    lbad = lbad or "area created at %s, expected p_vaddr" % A.show(e[1])
+            for e in writes:
+                if not seg_field(e[1], "p_vaddr"):
+                    lbad = lbad or "file bytes written at %s, expected p_vaddr" % A.show(e[1])
+            if len(creates) > 1:
+                lbad = lbad or "%d areas created for one segment" % len(creates)
+            if creates and prots and not failed:
+                # the image of the area as a byte-sequence expression: base + overlays at offset 0
+                e = creates[0]
+                if e[0] == "init_area":
+                    base = seq_norm(e[2])
+                else:
+                    base = ("filled", A.INT(0, 8), e[2])
+                overlays = [seq_norm(w[2]) for w in writes]
+                for c in evs:
+                    if c[0] == "copy" and strip_d(c[1])[0] == "slice" and seq_norm(strip_d(c[1])[1]) == base:
+                        rg = strip_d(c[1])[2]
+                        if rg[0] == "agg" and rg[1].endswith("RangeTo"):
+                            overlays.append(seq_norm(c[2]))
+                        else:
+                            lbad = lbad or "file bytes copied to a range that does not start at the segment's address"
+                FILE = ("segdata", EM.SEG)
+                if base == FILE:
+                    n_eq += 1
+                    if overlays and any(x != FILE for x in overlays):
+                        lbad = lbad or "segment bytes overwritten with %s" % A.show(overlays[0])[:60]
+                    # the file bytes are the whole image only if nothing of p_memsz lies beyond p_filesz
+                    tied = any(c[0][0] == "bin" and c[0][1] == "Eq" and ((c[1] == "==" and c[2] == 1) or (c[1] == "!=" and 0 in c[2])) and
+                               {x[2] for x in H.leaves(c[0]) if x[0] == "field" and x[1] == EM.SEG} == {"p_memsz", "p_filesz"}
+                               for c in o.path.conds)
+                    if not tied:
+                        lbad = lbad or "the area holds only the file bytes although p_memsz may exceed p_filesz (no zero tail)"
+                elif base[0] == "filled" and A.is_int(base[1]) and base[1][1] == 0:
+                    n_zero += 1
+                    names = {x[2] for x in H.leaves(base[2]) if x[0] == "field" and x[1] == EM.SEG}
+                    if names != {"p_memsz"}:
+                        lbad = lbad or "zero area sized from %s, expected p_memsz" % sorted(names)
+                    else:
+                        rb, nr = rounding(I, o, base[2])
+                        n_round += nr
+                        rbad = rbad or rb
+                    if not overlays:
+                        lbad = lbad or "zero variant never copies the file bytes"
+                    for x in overlays:
+                        if x != FILE:
+                            lbad = lbad or "file bytes are %s, expected segment_data(segment)[..p_filesz]" % A.show(x)[:80]
+                else:
+                    lbad = lbad or "area contents are %s: neither the segment's file bytes nor zeroes" % A.show(base)[:60]
+            # permissions (only on paths that got as far as mem_prot)
+            for e in prots:
+                n_perm += 1
+                if not seg_field(e[1], "p_vaddr"):
+                    pbad = pbad or "mem_prot on %s, expected p_vaddr" % A.show(e[1])
+                m = I.decide(o.path, e[2])
+                fl = ("field", EM.SEG, "p_flags")
+                bits = [o.path.bitfacts.get((fl, i)) for i in range(3)]
+                if m is None or any(b is None for b in bits):
+                    pbad = pbad or "permission mask %s not decided by the p_flags tests" % A.show(e[2])
+                else:
+                    want = (bits[2] << 0) | (bits[1] << 1) | (bits[0] << 2)
+                    if m != want:
+                        pbad = pbad or "p_flags X/W/R=%d%d%d -> mask %d, expected %d" % (bits[0], bits[1], bits[2], m, want)
+            if creates and not failed and not prots:
+                pbad = pbad or "a loaded segment never gets its permissions"
     if n_eq == 0 or n_zero == 0:
         lbad = lbad or "PT_LOAD variants missing (equal=%d zero=%d)" % (n_eq, n_zero)
     if n_perm == 0:
         pbad = pbad or "no mem_prot on PT_LOAD paths"
+    ck.floor("page-rounding evaluations", n_round, 4096)
+    if rbad:
+        ck.violation("C15.round", "segment=PT_LOAD", rbad, where=where, what="area length is not p_memsz rounded up to the page size")
+    else:
+        ck.ok("C15.round", "segment=PT_LOAD", n_round)
     for rule, bad in (("C15.load", lbad), ("C15.perm", pbad)):
         if bad:
             ck.violation(rule, "segment=PT_LOAD", bad, where=where, what="loaded image differs from the file's segment")
@@ -136,6 +219,25 @@ def run(ctx):
         ck.ok("C15.symbols", "api=from_binary", nins)
     ck.sample({"rule": "C15", "paths": len(outs), "pt_load_equal": n_eq, "pt_load_zero": n_zero, "mem_prot": n_perm,
                "symbol_inserts": nins})
+
+
+def seq_norm(v):
+    """normal form of a byte-sequence value: copies (to_vec, deref) dropped; x[..len(x)] == x"""
+    v = strip_d(v)
+    if v[0] == "to_vec":
+        return seq_norm(v[1])
+    if v[0] == "slice":
+        base, rg = seq_norm(v[1]), v[2]
+        if rg[0] == "agg":
+            kind = rg[1].rsplit("::", 1)[1]
+            if kind == "RangeFull":
+                return base
+            if kind == "RangeTo" and EM.norm_len(rg[3][0]) == EM.norm_len(EM.seq_len(base)):
+                return base
+        return ("slice", base, rg)
+    if v[0] == "filled":
+        return ("filled", v[1], v[2])
+    return v
 
 
 def strip_d(t):
